@@ -1,7 +1,263 @@
-(** C20 — lemmas about the muncher model. *)
+(** C20 — lemmas about the muncher model: reflection of [well_formed], the munchers never get stuck,
+    positional consistency of the generated item, the two call syntaxes agree. *)
 From Coq Require Import List NArith Bool Arith Lia Permutation.
-From RlibV Require Import C20.Model C20.Current.
+From RlibV Require Import C20.Model C20.Spec C20.Current.
 Import ListNotations.
+
+(** ** reflection of the boolean equalities *)
+Lemma list_eqb_eq {A} (e : A -> A -> bool) :
+  (forall a b, e a b = true -> a = b) -> forall x y, list_eqb e x y = true -> x = y.
+Proof.
+  intros He x; induction x as [|a x IH]; intros [|b y] H; cbn in H; try discriminate; auto.
+  apply andb_true_iff in H as [H1 H2]. f_equal; auto.
+Qed.
+Lemma acc_eqb_eq a b : acc_eqb a b = true -> a = b.
+Proof. destruct a, b; cbn; congruence. Qed.
+Lemma piece_eqb_eq a b : piece_eqb a b = true -> a = b.
+Proof. destruct a as [|x], b as [|y]; cbn; try congruence. intros H; f_equal; now apply acc_eqb_eq. Qed.
+Lemma mname_eqb_eq a b : mname_eqb a b = true -> a = b.
+Proof. destruct a, b; cbn; congruence. Qed.
+Lemma ret_src_eqb_eq a b : ret_src_eqb a b = true -> a = b.
+Proof. destruct a, b; cbn; congruence. Qed.
+Lemma target_eqb_eq a b : target_eqb a b = true -> a = b.
+Proof.
+  destruct a as [x|x], b as [y|y]; cbn; try congruence; intros H; f_equal.
+  - now apply mname_eqb_eq. - now apply ret_src_eqb_eq.
+Qed.
+Lemma deco_eqb_eq a b : deco_eqb a b = true -> a = b.
+Proof. destruct a, b; cbn; congruence. Qed.
+Lemma fpiece_eqb_eq a b : fpiece_eqb a b = true -> a = b.
+Proof. destruct a, b; cbn; congruence. Qed.
+Lemma pieces_eqb_eq x y : pieces_eqb x y = true -> x = y.
+Proof. apply list_eqb_eq, piece_eqb_eq. Qed.
+
+Lemma keeps_spec a ps : keeps a ps = true -> ps = [PAcc a].
+Proof. apply pieces_eqb_eq. Qed.
+Lemma splice_ok_spec a ps : splice_ok a ps = true -> ps = [PVar; PAcc a] \/ ps = [PAcc a; PVar].
+Proof. unfold splice_ok. intros H. apply orb_true_iff in H as [H|H]; apply pieces_eqb_eq in H; auto. Qed.
+
+Lemma interp_keep A v a : interp A v [PAcc a] = get A a.
+Proof. unfold interp. cbn. apply app_nil_r. Qed.
+Lemma interp_front A v a : interp A v [PVar; PAcc a] = v :: get A a.
+Proof. unfold interp. cbn. now rewrite app_nil_r. Qed.
+Lemma interp_back A v a : interp A v [PAcc a; PVar] = get A a ++ [v].
+Proof. reflexivity. Qed.
+
+(** ** what one step of a good rule does *)
+Definition vars_of (k : kind) (cs : list capture) : list var :=
+  map cap_var (filter (fun c => kind_eqb (cap_kind c) k) cs).
+
+Lemma cap_rule_step k last r A v :
+  good_cap_rule k last r = true ->
+  r_next r = ToMuncher (if last then M1 else M0)
+  /\ a_arg (apply_rule r A v) = a_arg A
+  /\ Permutation (a_const (apply_rule r A v)) (a_const A ++ vars_of Shared [mkCap k v])
+  /\ Permutation (a_mut (apply_rule r A v)) (a_mut A ++ vars_of Mutable [mkCap k v]).
+Proof.
+  unfold good_cap_rule. intros H.
+  apply andb_true_iff in H as [H Hk]. apply andb_true_iff in H as [Hn Ha].
+  apply target_eqb_eq in Hn. apply keeps_spec in Ha.
+  split; [exact Hn|]. unfold apply_rule; cbn [a_arg a_const a_mut].
+  rewrite Ha, interp_keep. split; [reflexivity|].
+  destruct k; apply andb_true_iff in Hk as [H1 H2]; cbn.
+  - apply keeps_spec in H2. rewrite H2, interp_keep. cbn. rewrite app_nil_r. split; [|reflexivity].
+    apply splice_ok_spec in H1 as [H1|H1]; rewrite H1.
+    + rewrite interp_front. cbn. apply Permutation_cons_append.
+    + rewrite interp_back. reflexivity.
+  - apply keeps_spec in H1. rewrite H1, interp_keep. cbn. rewrite app_nil_r. split; [reflexivity|].
+    apply splice_ok_spec in H2 as [H2|H2]; rewrite H2.
+    + rewrite interp_front. cbn. apply Permutation_cons_append.
+    + rewrite interp_back. reflexivity.
+Qed.
+
+Lemma arg_rule_step nxt r A v :
+  good_arg_rule nxt r = true ->
+  r_next r = nxt /\ apply_rule r A v = mkAccs (a_const A) (a_mut A) (a_arg A ++ [v]).
+Proof.
+  unfold good_arg_rule. intros H.
+  apply andb_true_iff in H as [H H4]. apply andb_true_iff in H as [H H3]. apply andb_true_iff in H as [H1 H2].
+  apply target_eqb_eq in H1. apply keeps_spec in H2. apply keeps_spec in H3. apply pieces_eqb_eq in H4.
+  split; [exact H1|]. unfold apply_rule. rewrite H2, H3, H4, !interp_keep, interp_back. reflexivity.
+Qed.
+
+(** ** well-formedness, unpacked *)
+Record wf (ms : macros) : Prop := {
+  wf_e0 : entry_for ms ENoCaps = Some M1;
+  wf_e1 : entry_for ms ECaps = Some M0;
+  wf_cap : forall (k : kind) (last : bool), exists r,
+      first_for (m_m0 ms) (if last then PCapLast k else PCapComma k) = Some r /\ good_cap_rule k last r = true;
+  wf_argc : exists r, first_for (m_m1 ms) PArgComma = Some r /\ good_arg_rule (ToMuncher M1) r = true;
+  wf_argl : forall b : bool, exists r, first_for (m_m1 ms) (PArgLast b) = Some r
+                                /\ good_arg_rule (ToFinal (if b then RetMatched else RetUnit)) r = true;
+  wf_fin : final_ok (m_final ms) = true
+}.
+
+Lemma check_rule_spec rs p good : check_rule rs p good = true -> exists r, first_for rs p = Some r /\ good r = true.
+Proof. unfold check_rule. destruct (first_for rs p) as [r|]; [|discriminate]. eauto. Qed.
+
+Lemma well_formed_wf ms : well_formed ms = true -> wf ms.
+Proof.
+  unfold well_formed. intros H.
+  repeat (let H' := fresh "W" in apply andb_true_iff in H as [H H']).
+  unfold entry_ok in H.
+  destruct (entry_for ms ENoCaps) as [[|]|] eqn:E0; try discriminate.
+  destruct (entry_for ms ECaps) as [[|]|] eqn:E1; try discriminate.
+  constructor; auto.
+  - intros [|] [|]; apply check_rule_spec; assumption.
+  - apply check_rule_spec; assumption.
+  - intros [|]; apply check_rule_spec; assumption.
+Qed.
+
+Lemma munch_cons ms m A h t :
+  munch ms m A (h :: t) =
+  match find_rule (rules_of ms m) h with
+  | None => None
+  | Some r =>
+      match r_next r with
+      | ToMuncher m' => munch ms m' (apply_rule r A (var_of h)) t
+      | ToFinal rs => match t with [] => Some (emit (m_final ms) (apply_rule r A (var_of h)) (ret_of rs h)) | _ :: _ => None end
+      end
+  end.
+Proof. reflexivity. Qed.
+
+Lemma vars_of_cons k c cs : vars_of k (c :: cs) = vars_of k [c] ++ vars_of k cs.
+Proof. unfold vars_of. cbn. destruct (kind_eqb (cap_kind c) k); reflexivity. Qed.
+
+Lemma munch_caps ms : wf ms -> forall cs A t, cs <> [] ->
+  exists A', munch ms M0 A (cap_heads cs ++ t) = munch ms M1 A' t
+             /\ a_arg A' = a_arg A
+             /\ Permutation (a_const A') (a_const A ++ vars_of Shared cs)
+             /\ Permutation (a_mut A') (a_mut A ++ vars_of Mutable cs).
+Proof.
+  intros W cs. induction cs as [|c cs IH]; intros A t Hne; [congruence|].
+  destruct c as [k v]. destruct cs as [|c' cs'].
+  - cbn [cap_heads cap_kind cap_var app]. rewrite munch_cons.
+    destruct (wf_cap ms W k true) as (r & Hf & Hg).
+    change (find_rule (rules_of ms M0) (HCapLast k v)) with (first_for (m_m0 ms) (PCapLast k)). rewrite Hf.
+    destruct (cap_rule_step k true r A v Hg) as (Hn & Ha & Hc & Hm). rewrite Hn.
+    exists (apply_rule r A v). cbn [var_of]. auto.
+  - change (cap_heads (mkCap k v :: c' :: cs')) with (HCapComma k v :: cap_heads (c' :: cs')).
+    rewrite <- app_comm_cons, munch_cons.
+    destruct (wf_cap ms W k false) as (r & Hf & Hg).
+    change (find_rule (rules_of ms M0) (HCapComma k v)) with (first_for (m_m0 ms) (PCapComma k)). rewrite Hf.
+    destruct (cap_rule_step k false r A v Hg) as (Hn & Ha & Hc & Hm). rewrite Hn. cbn [var_of].
+    destruct (IH (apply_rule r A v) t ltac:(discriminate)) as (A' & He & Ha' & Hc' & Hm').
+    exists A'. split; [exact He|]. split; [congruence|].
+    rewrite (vars_of_cons Shared (mkCap k v)), (vars_of_cons Mutable (mkCap k v)), !app_assoc.
+    split.
+    + rewrite Hc'. apply Permutation_app_tail. exact Hc.
+    + rewrite Hm'. apply Permutation_app_tail. exact Hm.
+Qed.
+
+
+Lemma munch_args ms : wf ms -> forall l A ret, l <> [] ->
+  munch ms M1 A (arg_heads ret l) = Some (emit (m_final ms) (mkAccs (a_const A) (a_mut A) (a_arg A ++ l)) (ret_ty ret)).
+Proof.
+  intros W l. induction l as [|v l IH]; intros A ret Hne; [congruence|].
+  destruct l as [|v' l'].
+  - cbn [arg_heads]. rewrite munch_cons.
+    destruct (wf_argl ms W (match ret with Some _ => true | None => false end)) as (r & Hf & Hg).
+    change (find_rule (rules_of ms M1) (HArgLast v ret))
+      with (first_for (m_m1 ms) (PArgLast (match ret with Some _ => true | None => false end))).
+    rewrite Hf. destruct (arg_rule_step _ r A v Hg) as (Hn & Ha). rewrite Hn. cbn [var_of]. rewrite Ha.
+    destruct ret; reflexivity.
+  - change (arg_heads ret (v :: v' :: l')) with (HArgComma v :: arg_heads ret (v' :: l')).
+    rewrite munch_cons. destruct (wf_argc ms W) as (r & Hf & Hg).
+    change (find_rule (rules_of ms M1) (HArgComma v)) with (first_for (m_m1 ms) PArgComma). rewrite Hf.
+    destruct (arg_rule_step _ r A v Hg) as (Hn & Ha). rewrite Hn. cbn [var_of]. rewrite Ha.
+    rewrite IH by discriminate. cbn [a_const a_mut a_arg]. now rewrite <- app_assoc.
+Qed.
+
+(** the munchers never get stuck and the result is the final arm applied to the three lists *)
+Lemma expand_spec ms s : wf ms -> sh_args s <> [] ->
+  exists C M, expand ms s = Some (emit (m_final ms) (mkAccs C M (sh_args s)) (ret_ty (sh_ret s)))
+              /\ Permutation C (caps_of Shared s) /\ Permutation M (caps_of Mutable s).
+Proof.
+  intros W Hargs. unfold expand, input_of, entry_pat.
+  pose proof (wf_e0 ms W) as E0. pose proof (wf_e1 ms W) as E1. unfold entry_for in E0, E1.
+  destruct (sh_caps s) as [|c cs] eqn:Ecaps.
+  - destruct (find (fun e => epat_eqb (fst e) ENoCaps) (m_entry ms)) as [[p m]|]; [|discriminate].
+    injection E0 as ->. cbn [cap_heads app]. rewrite munch_args by assumption.
+    exists [], []. unfold caps_of. rewrite Ecaps. cbn. auto.
+  - destruct (find (fun e => epat_eqb (fst e) ECaps) (m_entry ms)) as [[p m]|]; [|discriminate].
+    injection E1 as ->.
+    destruct (munch_caps ms W (c :: cs) empty_accs (arg_heads (sh_ret s) (sh_args s)) ltac:(discriminate))
+      as (A' & He & Ha & Hc & Hm).
+    rewrite He, munch_args by assumption. rewrite Ha. cbn [empty_accs a_arg a_const a_mut app] in *.
+    exists (a_const A'), (a_mut A'). unfold caps_of. rewrite Ecaps. auto.
+Qed.
+
+Lemma tpiece_eqb_eq a b : tpiece_eqb a b = true -> a = b.
+Proof. destruct a as [|x], b as [|y]; cbn; try congruence. intros H; f_equal; now apply acc_eqb_eq. Qed.
+
+Lemma perm3_spec l : perm3 l = true -> Permutation l [AArg; AConst; AMut].
+Proof.
+  unfold perm3. destruct l as [|a [|b [|c [|d l]]]]; cbn [length Nat.eqb andb]; try discriminate.
+  intros H.
+  destruct a, b, c; cbn in H; try discriminate;
+    first [ reflexivity
+          | apply perm_swap
+          | apply perm_skip, perm_swap
+          | symmetry; apply (Permutation_cons_append [AConst; AMut] AArg)
+          | symmetry; apply (Permutation_rev [AArg; AConst; AMut])
+          | eapply perm_trans; [apply perm_swap|]; apply perm_skip, perm_swap ].
+Qed.
+
+Lemma segs_ok_spec l : forallb seg_ok l = true -> l = map (fun a => mkSeg a (deco_of a)) (map seg_acc l).
+Proof.
+  induction l as [|[a d] l IH]; cbn; [reflexivity|]. intros H.
+  apply andb_true_iff in H as [H1 H2]. unfold seg_ok in H1. cbn in H1. apply deco_eqb_eq in H1. subst d.
+  f_equal. auto.
+Qed.
+
+Lemma emit_params_order A order :
+  emit_params A (map (fun a => mkSeg a (deco_of a)) order)
+  = flat_map (fun a => map (fun v : var => (fst v, snd v, deco_of a)) (get A a)) order.
+Proof. unfold emit_params. induction order as [|a o IH]; cbn; [reflexivity|]. now rewrite IH. Qed.
+Lemma emit_call_order A order :
+  emit_call A (map (fun a => mkSeg a (deco_of a)) order)
+  = flat_map (fun a => map (fun v : var => (fst v, deco_of a)) (get A a)) order.
+Proof. unfold emit_call. induction order as [|a o IH]; cbn; [reflexivity|]. now rewrite IH. Qed.
+Lemma emit_tmpl_order A order :
+  emit_tmpl A (map tp_of order)
+  = flat_map (fun a => match a with AArg => [TIArgs] | _ => map (fun v : var => TIName (fst v)) (get A a) end) order.
+Proof. unfold emit_tmpl. induction order as [|a o IH]; cbn; [reflexivity|]. rewrite IH. destruct a; reflexivity. Qed.
+
+Lemma final_consistent f s C M :
+  final_ok f = true -> Permutation C (caps_of Shared s) -> Permutation M (caps_of Mutable s) ->
+  consistent s (emit f (mkAccs C M (sh_args s)) (ret_ty (sh_ret s))).
+Proof.
+  unfold final_ok. intros H HC HM.
+  do 6 (let H' := fresh "F" in apply andb_true_iff in H as [H H']).
+  set (order := map seg_acc (f_params f)) in *.
+  apply perm3_spec in H. apply segs_ok_spec in F4. fold order in F4.
+  apply (list_eqb_eq _ fpiece_eqb_eq) in F3. apply (list_eqb_eq _ tpiece_eqb_eq) in F2.
+  apply (list_eqb_eq _ acc_eqb_eq) in F0. apply segs_ok_spec in F. rewrite F0 in F.
+  destruct (f_clo_params f) as [|[a d] [|? ?]] eqn:Ecp; try discriminate.
+  apply andb_true_iff in F1 as [F1a F1b]. cbn in F1a, F1b. apply acc_eqb_eq in F1a. apply deco_eqb_eq in F1b. subst a d.
+  exists C, M, order. unfold emit. cbn [e_params e_tmpl e_clo_call e_clo_params e_ruleA e_ret].
+  rewrite F4, F2, F, F3, Ecp, emit_params_order, emit_call_order, emit_tmpl_order.
+  repeat split; auto.
+  unfold emit_params. cbn. apply app_nil_r.
+Qed.
+
+Lemma expand_consistent ms s : well_formed ms = true -> sh_args s <> [] ->
+  exists e, expand ms s = Some e /\ consistent s e.
+Proof.
+  intros H Ha. apply well_formed_wf in H.
+  destruct (expand_spec ms s H Ha) as (C & M & He & HC & HM).
+  eexists. split; [exact He|]. apply final_consistent; auto. apply (wf_fin ms H).
+Qed.
+
+Lemma expand_total ms s : well_formed ms = true -> sh_args s <> [] -> exists e, expand ms s = Some e.
+Proof. intros H Ha. destruct (expand_consistent ms s H Ha) as (e & He & _). eauto. Qed.
+
+Lemma call_syntaxes_agree {X} (s : shape) (e : expansion) (es : list (X + N)) :
+  consistent s e -> call_plain e es = call_trailing e es.
+Proof.
+  intros (C & M & order & _ & _ & _ & _ & _ & _ & _ & HA & _).
+  unfold call_plain. destruct es as [|x r]; [reflexivity|]. rewrite HA. cbn. now rewrite app_nil_r.
+Qed.
 
 Lemma current_well_formed : well_formed current_macros = true.
 Proof. vm_compute. reflexivity. Qed.
